@@ -29,6 +29,11 @@ fn emit_condition(
         Condition::Expression(Expression::Variable(name)) if name.contains('.') => {
             out.push(json!({"CNT?": name}));
         }
+        Condition::Expression(Expression::Variable(name))
+            if scope.resolve_label_in_knot(name, context).is_some() =>
+        {
+            out.push(json!({"CNT?": scope.resolve_label_in_knot(name, context).unwrap()}));
+        }
         Condition::Expression(expression) => {
             emit_expression_ctx(expression, out, Some(context), Some(scope))
         }
